@@ -12,6 +12,7 @@ package main
 import (
 	"fmt"
 	"hash/fnv"
+	"os"
 	"reflect"
 	"strings"
 	"sync"
@@ -48,7 +49,7 @@ func main() {
 	kit.Main("C05", "exploration", func(r *kit.Run) {
 		r.Rule("families value/element, value/top, value/change, doc/element, doc/top, doc/change are complete products of small alphabets " +
 			"(per kind: every subset of optional fields × visible × tags 0/1/3(/empty) × way nodes / members / discussion / comments variants; " +
-			"documents additionally × key order × unknown keys; top level: version absent/number/string × generator/copyright/attribution/license subsets × bounds × unknown keys × position of elements × layout × 9 element lists), " +
+			"documents additionally × key order × unknown keys; top level: version absent/number/string × generator/copyright/attribution/license subsets × bounds × unknown keys × position of elements × layout × 10 element lists: no elements key, empty, one rich element per kind, an interleaved mix of all kinds, three bare nodes), " +
 			"each evaluated under every codec configuration; a case is non-trivial when at least one optional field is present; distinct = distinct (case, codec)")
 		r.Assume("encoding/json is trusted as the generic parser of the shape oracle and as the backend of the delegating custom codec")
 		r.Assume("reference values and document texts are written by hand side by side in props/c05/model.go; documents are produced by text templates, never by json.Marshal of osm types")
@@ -66,7 +67,11 @@ func main() {
 		}
 		r.Set("codec_configurations", names)
 		if !r.Quick() && len(extraCodecs) == 0 {
-			r.Note("json-iterator configuration not linked into this binary (props/c05/run.sh adds it when the module resolves offline)")
+			why := os.Getenv("C05_JSONITER_SKIPPED")
+			if why == "" {
+				why = "not linked into this binary; props/c05/run.sh adds it when the module resolves offline"
+			}
+			r.Note("optional json-iterator configuration skipped: " + why)
 		}
 		defer stdCodec().Install()
 
@@ -102,6 +107,13 @@ func main() {
 		for ci, cfg := range cfgs {
 			cfg.Install()
 			rn := &runner{r: r, cfg: cfg, first: ci == 0}
+			if ci == 0 {
+				// the smallest members of the space first and one after the other,
+				// so that the replay stored for a key is its minimal reproducer
+				for _, c := range minimalProbes() {
+					rn.checkCase(c, &slot{})
+				}
+			}
 			if cfg.Counting != nil {
 				rn.checkCodecPaths()
 			}
@@ -129,7 +141,6 @@ func main() {
 			}
 		}
 		stdCodec().Install()
-		stopProf()
 	})
 }
 
@@ -379,8 +390,11 @@ func (rn *runner) checkCase(c Case, sl *slot) {
 	if rn.first {
 		sl.keys = raised
 	}
-	if r.WantSample() && c.nonTrivial() && len(c.Elems) > 0 && c.Elems[0].optionalCount() > 3 {
-		r.Sample(sampleDoc{Case: c, Codec: rn.cfg.Name, Text: clip(sampleText)})
+	// one sample per family: the first case with a reasonably rich element
+	if rn.first && c.nonTrivial() && (len(c.Elems) == 0 || c.Elems[0].optionalCount() > 3) {
+		if _, dup := rn.perFam.LoadOrStore(c.Family, true); !dup {
+			r.Sample(sampleDoc{Case: c, Codec: rn.cfg.Name, Text: clip(sampleText)})
+		}
 	}
 }
 
